@@ -194,6 +194,14 @@ func (s *Service) startInternalListener() {
 				continue
 			}
 
+			// handle() announces and persists the whole chain of states before it sends anything: when a send fails
+			// after the chain reached done, the thread is done. The terminal state is not left again.
+			if _, terminal := msg.state.(*done); terminal {
+				logInternalError(msg.err)
+
+				continue
+			}
+
 			msg.state = &abandoning{Code: codeInternalError}
 
 			logInternalError(msg.err)
